@@ -8,6 +8,7 @@ import (
 	"fmt"
 	"strings"
 	"testing"
+	"unicode"
 
 	"github.com/remieven/ysgo"
 	"github.com/remieven/ysgo/variable"
@@ -56,21 +57,30 @@ func (e mapEnv) callFn(name string, args []mval) (mval, bool, error) {
 
 func runC17(c c17Case) Verdict {
 	cmdSrc := c.source()
-	src := "title: Start\n---\nbefore\n" + cmdSrc + "\nafter\n===\n"
-	var want []mval
-	for _, w := range c.Words {
-		if w.E != nil {
-			v, err := evalExpr(w.E, mapEnv(c17Vars))
-			if err != nil {
-				return Verdict{Discard: "argument expression fails"}
+	// the node runs the command, changes the variables and jumps back to itself: the same command statement is
+	// executed twice on one runner, the second time with other values of the variables
+	src := "title: Start\n---\nbefore\n" + cmdSrc + "\nafter\n<<set $n to $n * 2 + 1>>\n<<set $b to not $b>>\n<<set $s to $s + \"?\">>\n<<jump Start>>\n===\n"
+	vars := map[string]mval{}
+	for k, v := range c17Vars {
+		vars[k] = v
+	}
+	expectArgs := func() ([]mval, bool) {
+		var want []mval
+		for _, w := range c.Words {
+			if w.E != nil {
+				v, err := evalExpr(w.E, mapEnv(vars))
+				if err != nil {
+					return nil, false
+				}
+				want = append(want, v)
+			} else {
+				want = append(want, classifyCommandWord(w.S))
 			}
-			want = append(want, v)
-		} else {
-			want = append(want, classifyCommandWord(w.S))
 		}
+		return want, true
 	}
 	storer := variable.NewInMemoryStorer()
-	loadStore(storer, c17Vars)
+	loadStore(storer, vars)
 	dr, err := ysgo.NewDialogueRunner(storer, "abc", strings.NewReader(src))
 	if err != nil {
 		return failf("a script with the command %s does not load: %v", cmdSrc, err)
@@ -87,7 +97,7 @@ func runC17(c c17Case) Verdict {
 	if c.Registered {
 		dr.AddCommand(c.Name, handler(c.Name))
 	}
-	// decoys: a handler under "stop", under the name's keyword prefix and under the first argument must never be used instead
+	// decoys: a handler under "stop", under the keywords and under the built-in must never be used instead
 	dr.AddCommand("stop", handler("stop"))
 	for _, decoy := range []string{"if", "set", "jump", "call", "declare", "enum", "case", "local", "else", "endif", "elseif"} {
 		if decoy != c.Name {
@@ -95,40 +105,60 @@ func runC17(c c17Case) Verdict {
 		}
 	}
 	h := &host{dr: dr, storer: newRecStorer()}
-	if ev := h.step(0); ev.K != "line" || ev.Text != "before" {
-		return failf("unexpected first element %s for\n%s", ev, src)
-	}
-	ev := h.step(0)
-	if ev.K == "panic" {
-		return failf("Next panicked on %s: %s", cmdSrc, ev.Text)
-	}
-	expected := showCall(c.Name, want)
 	cls := []string{}
-	switch {
-	case c.Name == "stop":
-		if ev.K != "end" {
-			return failf("%s must end the dialogue, got %s", cmdSrc, ev)
+	var want []mval
+	for round := 1; round <= 2; round++ {
+		var ok bool
+		if want, ok = expectArgs(); !ok {
+			return Verdict{Discard: "argument expression fails"}
 		}
-		if len(calls) != 0 {
-			return failf("%s was dispatched to a handler: %v", cmdSrc, calls)
+		calls = nil
+		if ev := h.step(0); ev.K != "line" || ev.Text != "before" {
+			return failf("unexpected element %s before the command (round %d) for\n%s", ev, round, src)
 		}
-		cls = append(cls, "stop")
-	case !c.Registered:
-		if ev.K != "err" {
-			return failf("%s names an unregistered command and must fail, got %s (handlers called: %v)", cmdSrc, ev, calls)
+		ev := h.step(0)
+		if ev.K == "panic" {
+			return failf("Next panicked on %s: %s", cmdSrc, ev.Text)
 		}
-		if len(calls) != 0 {
-			return failf("%s names an unregistered command but a handler was called: %v", cmdSrc, calls)
+		expected := showCall(c.Name, want)
+		stop := false
+		switch {
+		case c.Name == "stop":
+			if ev.K != "end" {
+				return failf("%s must end the dialogue, got %s", cmdSrc, ev)
+			}
+			if len(calls) != 0 {
+				return failf("%s was dispatched to a handler: %v", cmdSrc, calls)
+			}
+			cls = append(cls, "stop")
+			stop = true
+		case !c.Registered && c.Name != "wait":
+			if ev.K != "err" {
+				return failf("%s names an unregistered command and must fail, got %s (handlers called: %v)", cmdSrc, ev, calls)
+			}
+			if len(calls) != 0 {
+				return failf("%s names an unregistered command but a handler was called: %v", cmdSrc, calls)
+			}
+			cls = append(cls, "unregistered")
+			stop = true
+		case !c.Registered:
+			return Verdict{Discard: "the built-in wait (C10)"}
+		default:
+			if ev.K != "line" || ev.Text != "after" {
+				return failf("%s (execution %d): expected the line after the command, got %s (handlers called: %v)", cmdSrc, round, ev, calls)
+			}
+			if len(calls) != 1 || calls[0] != expected {
+				return failf("%s (execution %d of the same statement, variables %s): handler calls %v, want exactly [%s]", cmdSrc, round, showStore(vars), calls, expected)
+			}
+			cls = append(cls, "dispatched")
 		}
-		cls = append(cls, "unregistered")
-	default:
-		if ev.K != "line" || ev.Text != "after" {
-			return failf("%s: expected the line after the command, got %s (handlers called: %v)", cmdSrc, ev, calls)
+		if stop {
+			break
 		}
-		if len(calls) != 1 || calls[0] != expected {
-			return failf("%s: handler calls %v, want exactly [%s]", cmdSrc, calls, expected)
-		}
-		cls = append(cls, "dispatched")
+		// what the script does before jumping back
+		vars["n"] = numVal(vars["n"].N*2 + 1)
+		vars["b"] = boolVal(!vars["b"].B)
+		vars["s"] = strVal(vars["s"].S + "?")
 	}
 	types := map[byte]bool{}
 	for _, v := range want {
@@ -153,8 +183,8 @@ func runC17(c c17Case) Verdict {
 }
 
 var (
-	c17Names = []string{"c0", "doit", "é_x", "Cmd9", "iffy", "settings", "jumpy", "callme", "declared", "enumx", "casey", "localx", "stopper", "ifx", "setup", "wait_for_it", "x"}
-	c17Plain = []string{"a", "word", "é", "日本", "x_1", "B", "to", "is", "and", "null", "$x", "a.b", "a,b", "(x)", "#t", "a:b", "1a", "-", "--x", "+5", "True", "FALSE", "nan", "NaN", "inf", "-inf",
+	c17Names = []string{"c0", "doit", "é_x", "Cmd9", "wait", "déjà", "Åsa", "だ酒", "iffy", "settings", "jumpy", "callme", "declared", "enumx", "casey", "localx", "stopper", "ifx", "setup", "wait_for_it", "x"}
+	c17Plain = []string{"a", "word", "é", "日本", "voilà", "Åsa", "Š", "だ", "酒", "😅", "х", "Р", "x_1", "B", "to", "is", "and", "null", "$x", "a.b", "a,b", "(x)", "#t", "a:b", "1a", "-", "--x", "+5", "True", "FALSE", "nan", "NaN", "inf", "-inf",
 		"Infinity", "1e5", "1E5", "0x10", "0x1p4", "1_0", "1.2.3", "truely", "falsehood", "if", "set", "stop", "else", "endif"}
 	c17Nums = []string{"0", "1", "12", "007", "-1", "-0", "1.5", "-1.50", "0.001", "100000000000000000000", "3.14159", "-007.250"}
 )
@@ -168,6 +198,11 @@ func genC17Word(t *rapid.T) TextPart {
 	case 5:
 		return TextPart{S: rapid.SampledFrom([]string{"true", "false"}).Draw(t, "bool")}
 	case 6:
+		if rapid.Bool().Draw(t, "unicode") {
+			// letters from many scripts: every UTF-8 continuation byte occurs
+			rs := rapid.SliceOfN(rapid.RuneFrom(nil, unicode.Latin, unicode.Cyrillic, unicode.Hiragana, unicode.Han, unicode.Greek), 1, 5).Draw(t, "runes")
+			return TextPart{S: string(rs)}
+		}
 		return TextPart{S: rapid.StringMatching(`[a-zA-Z_é][a-zA-Z0-9_é]{0,6}`).Draw(t, "ident")}
 	case 7:
 		return TextPart{S: rapid.StringMatching(`-?[0-9]{1,4}(\.[0-9]{1,3})?`).Draw(t, "decimal")}
